@@ -525,6 +525,14 @@ def c07_generate(seed: int, tier: str) -> dict:
         elif r < 0.36:
             ops.append({"actor": "W", "do": ["load_parameters", pick(orr, systems), pick(orr, ["T0", "T1"]), orr.randrange(1 << 30)]})
             hot = None
+            if chance(orr, 0.4):
+                # the system has a preprocess_parameters hook (a country package's way of
+                # amending what was loaded): it looks at the system's own view at a date,
+                # amends the loaded tree in place from that date on, and hands it back
+                hpath = list(pick(orr, [("p0",), ("g", "p1"), ("g", "h", "p2")]))
+                hdate = pick(orr, pool) if pool else PW.rand_date(orr)
+                ops[-1]["do"].append({"read": [hpath, hdate], "update": [hpath, {"start": hdate}, round(orr.uniform(0, 10), 2)]})
+                hot = (tuple(hpath), [hdate])
         else:
             rd = gen_read(orr, tree, systems, hot, pool, traced_bias)
             ops.append({"actor": pick(orr, ["R1", "R2"]), "do": rd})
@@ -786,7 +794,8 @@ def run_c07(scn) -> Result:
                 writes += 1
                 H.add("W", "modify_again", [sid, mods])
             elif kind == "load_parameters":
-                _, sid, tid, lseed = do
+                _, sid, tid, lseed = do[:4]
+                hook = do[4] if len(do) > 4 else None
                 if sid not in systems or tid not in trees:
                     continue
                 import openfisca_core.parameters.parameter_node as m_pnode
@@ -802,10 +811,25 @@ def run_c07(scn) -> Result:
                 PW.write_dir(trees[tid], directory, style())
                 real = m_pnode.os
                 m_pnode.os = seams.listdir_permuter(lseed)
+                if hook:
+                    def preprocess(parameters, system=systems[sid], hook=hook):
+                        try:
+                            node = system.get_parameters_at_instant(hook["read"][1])
+                            for part in hook["read"][0]:
+                                node = getattr(node, part)
+                        except Exception:  # noqa: BLE001,S110  (no tree yet, or the parameter is not defined then)
+                            pass
+                        call_update(get_param(parameters, hook["update"][0], by_attribute=True), hook["update"][1], hook["update"][2])
+                        return parameters
+
+                    systems[sid].preprocess_parameters = preprocess
+                    res.count("probe:preprocessing_hook_reads_the_view_and_amends_the_loaded_tree")
                 try:
                     systems[sid].load_parameters(directory)
                 finally:
                     m_pnode.os = real
+                    if hook:
+                        systems[sid].preprocess_parameters = None
                 writes += 1
                 res.count("fault:listdir_permuted")
                 H.add("W", "load_parameters", [sid, tid])
@@ -815,6 +839,8 @@ def run_c07(scn) -> Result:
                 for lpath in PW.leaf_paths(trees[tid])[:12]:
                     values = PW.spec_at(trees[tid], lpath)["values"]
                     model = PW.LeafModel(values)
+                    if hook and list(lpath) == list(hook["update"][0]):
+                        model.update(hook["update"][1]["start"], None, hook["update"][2])
                     for d in sorted({*(scn.get("pool") or ()), *(PW.shift(e, k) for e, v in values if v != "expected" for k in (0, -1))})[:10]:
                         try:
                             got = PW.read_direct(systems[sid].parameters, lpath, d)
